@@ -25,7 +25,7 @@ REQUIRED_COUNTERS = ['whitelists_checked', 'filtered_imports']
 
 
 def time_limit(tier):
-    return 900 if tier == 'quick' else 5400
+    return common.default_limit(tier)
 
 
 def budget(tier):
